@@ -6,7 +6,7 @@ package criteria_omission
 // Contracts for gocv (comment-only; compiled out unless the tag "verif" is set, and empty then).
 
 //@ func omitCriteria
-//@   property C15 C07
+//@   property C15 C07 C01 C09
 //@   requires model.rearranged(*omissionOrderCriteria, current.Criteria)
 //@   requires model.coversAll(*listener, current.MethodParameters, current.Criteria) && model.validParams(*listener, current.MethodParameters)
 //@   ensures [omitted_are_first] *result1 == (*omissionOrderCriteria)[0:criteria_splitting.pivot(len(*omissionOrderCriteria), *parsedProps)]
@@ -24,7 +24,7 @@ package criteria_omission
 
 //@ func (*CriteriaOmission).Apply
 //@   refines model.Bias.Apply
-//@   property C15 C07 C09
+//@   property C15 C07 C09 C01
 //@   requires model.coherent(*listener, *current)
 //@   ensures [report_type] typeis(result.Props, CriteriaOmissionResult)
 //@   ensures [partition_sizes] len(result.Props.(CriteriaOmissionResult).OmittedCriteria) + len(result.DMP.Criteria) == len(current.Criteria)
